@@ -21,6 +21,19 @@ CLAIMED = {
         "note": "floats as reals; labels from a concrete list; sx engine/loader and the reference model are trusted; counterexamples "
                 "are replayed on the plain library before being reported",
     },
+    "C02": {
+        "category": "translation_validation",
+        "text": "For every registered non-container element the real _impedance (numpy code on the sx shim) and the real to_sympy() "
+                "expression (the _equation string through sympify) are both executed on symbolic parameters (anywhere in the limit box) and "
+                "a symbolic frequency f>0 and become complex rational functions N/D over shared uninterpreted atoms (non-integer powers, "
+                "tanh, sinh, cosh); equality is decided by polynomial-identity normalisation and z3 (unsat of N1*D2-N2*D1 != 0). The "
+                "same is done for the general transmission line element in all 243 open/short/finite sub-circuit configurations "
+                "(_impedance vs _sympy; rejected by both or by neither) and for Series/Parallel nests over opaque leaves "
+                "(_impedance vs to_sympy). A sat answer is confirmed numerically on the plain library before it is reported.",
+        "design_ref": "DESIGN.md section 4, C02",
+        "note": "floats as reals; transcendental functions uninterpreted with listed axioms (equality modulo field arithmetic and congruence); "
+                "divisions by zero are cut away (counted); f->0 / f->inf limits (sympy.limit) are outside the claim",
+    },
     "C05": {
         "category": "model_checking",
         "text": "The real DataSet constructor and operations are executed symbolically: frequencies (distinct, monotonic, either "
